@@ -29,7 +29,7 @@ def readerRowGroupsOf (cols : List Col) (ops : List Op) : List (List Reader.Colu
 /-- `num_rows` of the file: per row group the rows of its first column (that is what
 `carquet_writer_write_batch` counts; with aligned columns it is the row count of every column) -/
 def readerNumRows (cols : List Col) (ops : List Op) : Nat :=
-  ((tableOf cols ops).map (fun g => (g.map (·.rows)).headD 0)).sum
+  ((tableOf cols ops).map (firstRecs cols)).sum
 
 /-- **the table a history denotes**, in the reader model's terms -/
 def readerTableOf (cols : List Col) (ops : List Op) : Reader.Table :=
@@ -39,7 +39,9 @@ def readerTableOf (cols : List Col) (ops : List Op) : Reader.Table :=
 
 `Spec.Cursor` describes reading a column chunk as an index moving over a list of rows (definition
 level, repetition level, value iff not null).  These are the rows of one column of one row group of
-the table a history denotes. -/
+the table a history denotes; for a REPEATED column they carry the repetition levels of the history,
+so the batch-at-a-time theorems (C01_roundtrip_any_consumption) speak about the repetition levels
+the reader returns as well. -/
 
 /-- rows from definition levels and dense values: a row carries the next value exactly when its
 level is the maximum; repetition level 0 (flat columns) -/
@@ -52,8 +54,24 @@ def rowsOfLevels (maxDef : Nat) : List Nat → List Val → List (Carquet.Spec.C
       | [] => ⟨d, 0, none⟩ :: rowsOfLevels maxDef ds []
     else ⟨d, 0, none⟩ :: rowsOfLevels maxDef ds vs
 
-/-- the rows of a column's content -/
+/-- repetition levels per entry as the reader hands them out: the history's levels for a REPEATED
+column, level 0 otherwise (`carquet_read_data_page_v1` zero-fills the array) -/
+def readerReps (c : Col) (d : ColData) : List Nat :=
+  if c.maxRep > 0 then d.reps else List.replicate d.rows 0
+
+/-- rows from definition levels, repetition levels and dense values -/
+def rowsOfLevelsR (maxDef : Nat) : List Nat → List Nat → List Val → List (Carquet.Spec.Cursor.Row Val)
+  | d :: ds, r :: rs, vs =>
+    if d = maxDef then
+      match vs with
+      | v :: vs' => ⟨d, r, some v⟩ :: rowsOfLevelsR maxDef ds rs vs'
+      | [] => ⟨d, r, none⟩ :: rowsOfLevelsR maxDef ds rs []
+    else ⟨d, r, none⟩ :: rowsOfLevelsR maxDef ds rs vs
+  | _, _, _ => []
+
+/-- the rows (level entries) of a column's content: definition level, repetition level (0 unless the
+column is REPEATED), the value iff the definition level is the maximum -/
 def tableRows (c : Col) (d : ColData) : List (Carquet.Spec.Cursor.Row Val) :=
-  rowsOfLevels c.maxDef (readerDefs c d) d.vals
+  rowsOfLevelsR c.maxDef (readerDefs c d) (readerReps c d) d.vals
 
 end Carquet.Impl.Writer
